@@ -12,6 +12,10 @@ import itertools
 import os
 import sys
 
+# R9 = (C0..C8): LEN % 8 == 1, the last component sits alone in the second identifier byte
+PALETTE9 = [0x000, 0x001, 0x100, 0x101, 0x1FF, 0x0FF, 0x180, 0x081, 0x102, 0x155, 0x0AA, 0x110, 0x008, 0x1C0]
+PALETTES = {9: PALETTE9}
+
 PALETTE16 = [0x0000, 0x0001, 0x0081, 0x0180, 0x8001, 0xFFFF, 0x0300, 0x4102, 0x00FF, 0xFF00, 0x0008, 0x8208,
              0x0A0A, 0x0100, 0x8000, 0x0280, 0x1030, 0x0409]
 
@@ -94,7 +98,7 @@ def _gen_filter(rng, comps, depth=0):
 def query_family(n):
     """Deterministic family of (views, filter): views = list of (kind, comp) with kind in r/m/or/om/id."""
     rng = _Rng(0xC03 + n)
-    focus = list(range(n)) if n <= 6 else [0, 1, 3, 6, 7, 8, 9, 10, 12, 14, 15]
+    focus = list(range(n)) if n <= 6 else [c for c in [0, 1, 3, 6, 7, 8, 9, 10, 12, 14, 15] if c < n]
     fam = [([], ("n",)), ([("id", -1)], ("n",)), ([("r", focus[0])], ("n",)),
            ([("om", focus[2]), ("id", -1), ("r", focus[0])], ("!", ("h", focus[1]))),
            ([("or", focus[1]), ("or", focus[2])], ("|", ("h", focus[0]), ("h", focus[3]))),
@@ -119,7 +123,7 @@ SUB_OF = {"r": ["r", "or"], "m": ["r", "m", "or", "om"], "or": ["r", "or"], "om"
 def entries_family(n):
     """(declared entry views E, sub-views S of E, filter over the components of E)."""
     rng = _Rng(0xE17 + n)
-    focus = list(range(n)) if n <= 6 else [0, 1, 3, 6, 7, 8, 9, 10, 12, 14, 15]
+    focus = list(range(n)) if n <= 6 else [c for c in [0, 1, 3, 6, 7, 8, 9, 10, 12, 14, 15] if c < n]
     fam = []
     count = 24 if n <= 6 else 10
     while len(fam) < count:
@@ -577,3 +581,4 @@ if __name__ == "__main__":
     d = sys.argv[1]
     emit(5, list(range(32)), os.path.join(d, "gen_r5.rs"), "gen_r5")
     emit(16, PALETTE16, os.path.join(d, "gen_r16.rs"), "gen_r16")
+    emit(9, PALETTE9, os.path.join(d, "gen_r9.rs"), "gen_r9")
